@@ -124,8 +124,7 @@ Definition C04_burst_from_cursor : Prop :=
 Definition C04_burst_junction_consumer : Prop :=
   forall s hd sg c path j je P evs,
     wf_state s -> head_chain s hd sg ->
-    lib_numbered (db s) c ->
-    block_in (ri (cu_lib c)) sg = true -> block_in (ri (cu_blk c)) sg = false ->
+    block_in (ri (cu_blk c)) sg = false ->
     branch_to (db s) sg (ri (cu_blk c)) path j -> find j (store (db s)) = Some je ->
     let jc := junction_cursor hd c (mkR j (bnum (eb je))) in
     (held_seg jc sg = [] -> P = [] \/ exists P', P = P' ++ [eb je]) ->
